@@ -810,9 +810,17 @@ impl IQLEngine {
             None
         };
 
+        // Heads in order of first appearance, with the query (head of the last
+        // rule) moved to the end - the same order as `get_rule_heads`.
+        let mut head_order: Vec<String> = Vec::new();
         for rule in &program.rules {
-            let predicate = &rule.head.relation;
+            if !head_order.contains(&rule.head.relation) {
+                head_order.push(rule.head.relation.clone());
+            }
+        }
+        Self::query_head_last(&program, &mut head_order);
 
+        for predicate in &head_order {
             // Skip if we've already processed this predicate
             if processed_predicates.contains(predicate) {
                 continue;
@@ -820,6 +828,7 @@ impl IQLEngine {
             processed_predicates.insert(predicate.clone());
 
             let rules_for_predicate = rules_by_head.get(predicate).expect("predicate is guaranteed in rules_by_head: populated from same program.rules iteration");
+            let rule = rules_for_predicate[0];
 
             if rules_for_predicate.len() == 1 {
                 if let Some(ref mut agg) = agg_timing {
@@ -1069,7 +1078,19 @@ impl IQLEngine {
                 seen_heads.insert(head.clone());
             }
         }
+        Self::query_head_last(program, &mut rule_heads);
         rule_heads
+    }
+
+    /// The query is the last parsed rule: its head must be the last head (and so
+    /// the last IR node), also when an earlier clause defines the same relation.
+    fn query_head_last(program: &Program, heads: &mut Vec<String>) {
+        if let Some(last) = program.rules.last() {
+            if let Some(pos) = heads.iter().position(|h| *h == last.head.relation) {
+                let query = heads.remove(pos);
+                heads.push(query);
+            }
+        }
     }
 
     /// Detect which IR nodes require recursive execution
